@@ -92,7 +92,15 @@ def r07_6(prog: Program, rep: Report):
     # every branch that emits a cyclic-flagged node, with the capability conditions (and their polarity) that lead to it
     cond_sets = []
     for p in cut_paths:
-        cs = tuple((g, pol) for g, pol in p.guards() if is_cap(g))
+        # (a conjunction that held is each of its conjuncts: `is_cyclic = is_visited and can_be_cyclic` tested as one name)
+        def _split(g, pol):
+            if g[0] == "boolop" and ((g[1] == "and" and pol) or (g[1] == "or" and not pol)):
+                return [y for o in g[2] for y in _split(o, pol)]
+            if g[0] == "not":
+                return _split(g[1], not pol)
+            return [(g, pol)]
+
+        cs = tuple((g, pol) for g0, pol0 in p.guards() for g, pol in _split(g0, pol0) if is_cap(g))
         if cs and cs not in cond_sets:
             cond_sets.append(cs)
     if not cond_sets:
